@@ -9,6 +9,8 @@ import OutrankModel.Drv.C05
 import OutrankModel.Drv.C13
 import OutrankModel.Drv.C12
 import OutrankModel.Drv.C17
+import OutrankModel.Drv.C19
+import OutrankModel.Drv.C20
 /-!
 Line-protocol driver (DESIGN §2.2): one request per line on stdin, one reply per line on stdout.
 Adds only parsing and printing around the definitions the theorems are about.  Each property contributes one
@@ -26,7 +28,9 @@ def handlers : List (String × Handler) := [
   ("C05", C05Drv.drv),
   ("C13", C13Drv.drv),
   ("C12", C12Drv.drv),
-  ("C17", C17Drv.drv)
+  ("C17", C17Drv.drv),
+  ("C19", C19Drv.drv),
+  ("C20", C20Drv.drv)
 ]
 
 abbrev DState := List (String × Val)
